@@ -207,6 +207,8 @@ def _random_wrapper(kind, key, depth, seed):
     from .rngflow import random_composition
     rr = pyrandom.Random(f"c08t:{key}")
     names = []
+    # (the norm is not in place: a random member before it may hand on an expanded view -- torchvision's grayscale of a tensor -- which
+    #  torch refuses to write into; that refusal has nothing to do with the seeds)
 
     def rand_t(d=depth):
         n, t = random_composition(rr, d)
@@ -216,9 +218,9 @@ def _random_wrapper(kind, key, depth, seed):
     if kind == "xt":
         w = XTransformWrapper(make_ds("tensor"), transform=T.KDComposeTransform([rand_t(), rand_t(max(depth - 1, 0))]), seed=seed)
     elif kind == "xt-list":
-        w = XTransformWrapper(make_ds("tensor"), transform=[rand_t(), T.KDImageRangeNorm(), rand_t(max(depth - 1, 0))], seed=seed)
+        w = XTransformWrapper(make_ds("tensor"), transform=[rand_t(), T.KDImageRangeNorm(inplace=False), rand_t(max(depth - 1, 0))], seed=seed)
     elif kind == "multiview":
-        w = KDMultiViewWrapper(make_ds("tensor"), configs=[(2, T.KDComposeTransform([rand_t(), T.KDImageRangeNorm()])), (1, rand_t())], seed=seed)
+        w = KDMultiViewWrapper(make_ds("tensor"), configs=[(2, T.KDComposeTransform([rand_t(), T.KDImageRangeNorm(inplace=False)])), (1, rand_t())], seed=seed)
     elif kind == "xt-over-subset":
         w = XTransformWrapper(SubsetWrapper(make_ds("tensor"), indices=[4, 2, 0, 5]), transform=rand_t(), seed=seed)
     else:
